@@ -1,5 +1,1097 @@
-//! C08 — not implemented yet.
+//! C08 — univariate polynomial arithmetic is ring arithmetic on canonical representations.
+use ark_ff::{FftField, Field, PrimeField, Zero};
+use ark_poly::univariate::{DenseOrSparsePolynomial, DensePolynomial, SparsePolynomial};
+use ark_poly::{
+    DenseUVPolynomial, EvaluationDomain, Evaluations, GeneralEvaluationDomain, MixedRadixEvaluationDomain, Polynomial,
+    Radix2EvaluationDomain,
+};
+use ark_std::rand::SeedableRng;
+use vh_core::engine::{no_panic, Obs, PropSpec, Rel, Tape, Tier, R};
+use vh_core::{ensure, ensure_eq, Fail};
+
+// ---------------------------------------------------------------------------------------------------------
+// the model: canonical coefficient vectors (index = degree, no trailing zero), schoolbook operations
+// ---------------------------------------------------------------------------------------------------------
+
+type M<F> = Vec<F>;
+
+fn canon<F: Field>(mut v: Vec<F>) -> M<F> {
+    while v.last().map_or(false, |c| c.is_zero()) {
+        v.pop();
+    }
+    v
+}
+fn m_add<F: Field>(a: &[F], b: &[F]) -> M<F> {
+    let n = a.len().max(b.len());
+    let mut r = vec![F::zero(); n];
+    for i in 0..n {
+        if i < a.len() {
+            r[i] += a[i];
+        }
+        if i < b.len() {
+            r[i] += b[i];
+        }
+    }
+    canon(r)
+}
+fn m_neg<F: Field>(a: &[F]) -> M<F> {
+    a.iter().map(|c| -*c).collect()
+}
+fn m_scale<F: Field>(a: &[F], f: F) -> M<F> {
+    canon(a.iter().map(|c| *c * f).collect())
+}
+fn m_sub<F: Field>(a: &[F], b: &[F]) -> M<F> {
+    m_add(a, &m_neg(b))
+}
+fn m_mul<F: Field>(a: &[F], b: &[F]) -> M<F> {
+    if a.is_empty() || b.is_empty() {
+        return vec![];
+    }
+    let mut r = vec![F::zero(); a.len() + b.len() - 1];
+    for (i, x) in a.iter().enumerate() {
+        if x.is_zero() {
+            continue;
+        }
+        for (j, y) in b.iter().enumerate() {
+            r[i + j] += *x * y;
+        }
+    }
+    canon(r)
+}
+/// long division; `b` canonical and non-zero
+fn m_divrem<F: Field>(a: &[F], b: &[F]) -> (M<F>, M<F>) {
+    assert!(!b.is_empty());
+    let mut r: Vec<F> = a.to_vec();
+    if a.len() < b.len() {
+        return (vec![], canon(r));
+    }
+    let db = b.len() - 1;
+    let li = b[db].inverse().unwrap();
+    let mut q = vec![F::zero(); a.len() - db];
+    for k in (0..q.len()).rev() {
+        let c = r[k + db] * li;
+        q[k] = c;
+        if !c.is_zero() {
+            for (j, y) in b.iter().enumerate() {
+                r[k + j] -= c * y;
+            }
+        }
+    }
+    r.truncate(db);
+    (canon(q), canon(r))
+}
+fn m_eval<F: Field>(a: &[F], x: &F) -> F {
+    let mut acc = F::zero();
+    for c in a.iter().rev() {
+        acc *= x;
+        acc += c;
+    }
+    acc
+}
+fn m_deg<F>(a: &[F]) -> usize {
+    a.len().saturating_sub(1)
+}
+
+// ---------------------------------------------------------------------------------------------------------
+// generators
+// ---------------------------------------------------------------------------------------------------------
+
+fn mix(x: u64) -> u64 {
+    let mut z = x.wrapping_add(0x9e3779b97f4a7c15);
+    z = (z ^ (z >> 30)).wrapping_mul(0xbf58476d1ce4e5b9);
+    z = (z ^ (z >> 27)).wrapping_mul(0x94d049bb133111eb);
+    z ^ (z >> 31)
+}
+
+/// field element number `i` of the stream expanded from the tape word `seed` (a pure function of the tape)
+fn stream_felt<F: PrimeField>(seed: u64, i: u64) -> F {
+    let nb = (F::MODULUS_BIT_SIZE as usize + 7) / 8 + 8;
+    let mut bytes = Vec::with_capacity(nb + 8);
+    let mut x = mix(seed ^ mix(i.wrapping_mul(0xa24baed4963ee407)));
+    while bytes.len() < nb {
+        x = mix(x);
+        bytes.extend_from_slice(&x.to_le_bytes());
+    }
+    bytes.truncate(nb);
+    F::from_le_bytes_mod_order(&bytes)
+}
+
+fn nonzero<F: PrimeField>(x: F) -> F {
+    if x.is_zero() {
+        F::one()
+    } else {
+        x
+    }
+}
+
+/// edge-biased coefficient decoded from the tape
+fn tape_coeff<F: PrimeField>(t: &mut Tape<'_>) -> F {
+    match t.weighted(&[3, 2, 2, 3, 5]) {
+        0 => F::zero(),
+        1 => F::one(),
+        2 => -F::one(),
+        3 => F::from(t.below(16)),
+        _ => {
+            let s = t.u64();
+            stream_felt::<F>(s, 0)
+        },
+    }
+}
+
+/// a canonical coefficient vector of exactly `len` entries (leading coefficient non-zero)
+fn fill<F: PrimeField>(t: &mut Tape<'_>, len: usize) -> M<F> {
+    if len == 0 {
+        return vec![];
+    }
+    let style = t.weighted(&[4, 3, 2, 2]);
+    let seed = t.u64();
+    let mut v: Vec<F> = (0..len as u64)
+        .map(|i| {
+            let w = mix(seed ^ i.wrapping_mul(0x9e3779b1));
+            match style {
+                0 => stream_felt::<F>(seed, i),
+                1 => match w % 8 {
+                    0 | 1 => F::zero(),
+                    2 => F::one(),
+                    3 => -F::one(),
+                    4 => F::from((w >> 8) % 9),
+                    _ => stream_felt::<F>(seed, i),
+                },
+                2 => {
+                    if w % 8 == 0 {
+                        nonzero(stream_felt::<F>(seed, i))
+                    } else {
+                        F::zero()
+                    }
+                },
+                _ => match w % 4 {
+                    0 => F::zero(),
+                    1 => F::one(),
+                    2 => -F::one(),
+                    _ => F::from(2u64),
+                },
+            }
+        })
+        .collect();
+    if t.bool() {
+        let k = (len - 1).min(3);
+        for x in v.iter_mut().take(k) {
+            *x = tape_coeff::<F>(t);
+        }
+    }
+    v[len - 1] = nonzero(tape_coeff::<F>(t));
+    v
+}
+
+/// a canonical coefficient vector with at most `maxlen` entries; word 0 => zero polynomial
+fn gen_model<F: PrimeField>(t: &mut Tape<'_>, maxlen: usize) -> M<F> {
+    let len = match t.weighted(&[2, 2, 4, 5, 2]) {
+        0 => 0,
+        1 => 1,
+        2 => 2 + t.below(6) as usize,
+        3 => 1 + t.below(maxlen as u64) as usize,
+        _ => maxlen - t.below(3.min(maxlen as u64)) as usize,
+    };
+    fill(t, len.min(maxlen))
+}
+
+/// low-degree noise: fewer than `below` coefficients (possibly none)
+fn noise<F: PrimeField>(t: &mut Tape<'_>, below: usize) -> M<F> {
+    if below == 0 {
+        return vec![];
+    }
+    let len = match t.weighted(&[3, 3, 3]) {
+        0 => 0,
+        1 => t.below(below.min(4) as u64) as usize,
+        _ => t.below(below as u64) as usize,
+    };
+    fill(t, len)
+}
+
+/// a few terms at arbitrary degrees `<= maxdeg`
+fn gen_sparse_model<F: PrimeField>(t: &mut Tape<'_>, maxdeg: usize) -> M<F> {
+    let k = match t.weighted(&[1, 2, 3, 3]) {
+        0 => 0,
+        1 => 1,
+        2 => 2,
+        _ => 3 + t.below(6) as usize,
+    };
+    let mut v = vec![F::zero(); maxdeg + 1];
+    for _ in 0..k {
+        let d = match t.weighted(&[2, 1, 5]) {
+            0 => 0,
+            1 => maxdeg,
+            _ => t.below(maxdeg as u64 + 1) as usize,
+        };
+        v[d] = nonzero(tape_coeff::<F>(t));
+    }
+    canon(v)
+}
+
+/// Build a `SparsePolynomial` from the model: distinct degrees, non-zero coefficients, arbitrary order.
+fn to_sparse<F: PrimeField>(t: &mut Tape<'_>, m: &[F]) -> SparsePolynomial<F> {
+    let mut terms: Vec<(usize, F)> = m.iter().enumerate().filter(|(_, c)| !c.is_zero()).map(|(i, c)| (i, *c)).collect();
+    match t.below(4) {
+        0 => {},
+        1 => terms.reverse(),
+        _ => {
+            let seed = t.u64();
+            for i in (1..terms.len()).rev() {
+                let j = (mix(seed ^ i as u64) % (i as u64 + 1)) as usize;
+                terms.swap(i, j);
+            }
+        },
+    }
+    if t.bool() {
+        SparsePolynomial::from_coefficients_slice(&terms)
+    } else {
+        SparsePolynomial::from_coefficients_vec(terms)
+    }
+}
+
+fn to_dense<F: PrimeField>(t: &mut Tape<'_>, m: &[F]) -> DensePolynomial<F> {
+    match t.below(3) {
+        0 => DensePolynomial::from_coefficients_slice(m),
+        1 => {
+            // trailing zeros are documented to be stripped by the constructor
+            let mut v = m.to_vec();
+            v.extend(std::iter::repeat(F::zero()).take(1 + t.below(3) as usize));
+            DensePolynomial::from_coefficients_vec(v)
+        },
+        _ => DensePolynomial::from_coefficients_vec(m.to_vec()),
+    }
+}
+
+/// correlated pair of models; `f` is the scalar of the scaled-add relation (used by one class)
+fn gen_pair<F: PrimeField>(t: &mut Tape<'_>, maxlen: usize, f: F) -> (M<F>, M<F>, &'static str) {
+    match t.weighted(&[5, 3, 3, 2, 2, 2, 2, 2, 2]) {
+        0 => (gen_model(t, maxlen), gen_model(t, maxlen), "pair=independent"),
+        1 => {
+            let a = gen_model::<F>(t, maxlen);
+            let b = m_add(&m_neg(&a), &noise(t, a.len()));
+            (a, b, "pair=b=-a+noise")
+        },
+        2 => {
+            let a = gen_model::<F>(t, maxlen);
+            let b = m_add(&a, &noise(t, a.len()));
+            (a, b, "pair=b=a+noise")
+        },
+        3 => {
+            let a = gen_model::<F>(t, maxlen);
+            let mut b = fill::<F>(t, a.len());
+            if let Some(l) = a.last() {
+                *b.last_mut().unwrap() = -*l;
+            }
+            (a, b, "pair=equal degree, opposite leading")
+        },
+        4 => {
+            let a = gen_model::<F>(t, maxlen);
+            let mut b = fill::<F>(t, a.len());
+            if let Some(l) = a.last() {
+                *b.last_mut().unwrap() = *l;
+            }
+            (a, b, "pair=equal degree, same leading")
+        },
+        5 => {
+            let a = gen_model::<F>(t, maxlen);
+            let b = fill::<F>(t, a.len());
+            (a, b, "pair=equal degree")
+        },
+        6 => {
+            let a = gen_model::<F>(t, maxlen);
+            if t.bool() {
+                (vec![], a, "pair=left zero")
+            } else {
+                (a, vec![], "pair=right zero")
+            }
+        },
+        7 => {
+            // a + f*b cancels the leading terms
+            let a = gen_model::<F>(t, maxlen);
+            match f.inverse() {
+                Some(fi) => {
+                    let b = m_add(&m_scale(&a, -fi), &noise(t, a.len()));
+                    (a, b, "pair=b=-a/f+noise")
+                },
+                None => {
+                    let b = gen_model::<F>(t, maxlen);
+                    (a, b, "pair=independent")
+                },
+            }
+        },
+        _ => {
+            let a = gen_model::<F>(t, maxlen);
+            (a.clone(), a, "pair=equal")
+        },
+    }
+}
+
+/// a sparse model correlated with the dense model `a`
+fn gen_sparse_for<F: PrimeField>(t: &mut Tape<'_>, a: &[F], maxdeg: usize) -> (M<F>, &'static str) {
+    let sparsify = |t: &mut Tape<'_>, a: &[F], sign: F| -> M<F> {
+        // keep the leading term and a few others
+        let seed = t.u64();
+        let keep = t.below(3);
+        let mut v: Vec<F> = a
+            .iter()
+            .enumerate()
+            .map(|(i, c)| if i + 1 == a.len() || (keep > 0 && mix(seed ^ i as u64) % 4 < keep) { *c * sign } else { F::zero() })
+            .collect();
+        // and perturb a lower term
+        if a.len() > 1 && t.bool() {
+            let j = t.idx(a.len() - 1);
+            v[j] = tape_coeff::<F>(t);
+        }
+        canon(v)
+    };
+    match t.weighted(&[4, 3, 3, 2, 2, 2, 2, 1]) {
+        0 => (gen_sparse_model(t, maxdeg), "sparse=independent"),
+        1 => (sparsify(t, a, F::one()), "sparse=same leading term"),
+        2 => (sparsify(t, a, -F::one()), "sparse=opposite leading term"),
+        3 => (a.to_vec(), "sparse=a"),
+        4 => (m_neg(a), "sparse=-a"),
+        5 => {
+            // strictly higher degree
+            let mut v = gen_sparse_model::<F>(t, maxdeg);
+            let d = a.len() + t.below(4) as usize;
+            if v.len() <= d {
+                v.resize(d + 1, F::zero());
+                v[d] = nonzero(tape_coeff::<F>(t));
+            }
+            (canon(v), "sparse=higher degree")
+        },
+        6 => {
+            let d = a.len().saturating_sub(2);
+            (gen_sparse_model(t, d), "sparse=lower degree")
+        },
+        _ => (vec![], "sparse=zero"),
+    }
+}
+
+// ---------------------------------------------------------------------------------------------------------
+// result checks
+// ---------------------------------------------------------------------------------------------------------
+
+fn show_m<F: std::fmt::Display + Zero>(m: &[F]) -> String {
+    if m.is_empty() {
+        return "0".into();
+    }
+    let mut s = String::new();
+    let mut n = 0;
+    for (i, c) in m.iter().enumerate().rev() {
+        if c.is_zero() {
+            continue;
+        }
+        n += 1;
+        if n > 5 {
+            s.push_str(" + …");
+            break;
+        }
+        if !s.is_empty() {
+            s.push_str(" + ");
+        }
+        let cs = c.to_string();
+        let cs = if cs.len() > 14 { format!("{}…", &cs[..12]) } else { cs };
+        match i {
+            0 => s.push_str(&cs),
+            1 => s.push_str(&format!("{}·x", cs)),
+            _ => s.push_str(&format!("{}·x^{}", cs, i)),
+        }
+    }
+    format!("[deg {}: {}]", m.len() - 1, s)
+}
+
+fn first_diff<F: PrimeField>(got: &[F], want: &[F]) -> String {
+    let n = got.len().max(want.len());
+    for i in (0..n).rev() {
+        let g = got.get(i).copied().unwrap_or(F::zero());
+        let w = want.get(i).copied().unwrap_or(F::zero());
+        if g != w {
+            return format!("highest differing coefficient: x^{}: got {} expected {}", i, g, w);
+        }
+    }
+    "no coefficient differs".into()
+}
+
+fn err(sig: String, msg: String) -> Fail {
+    Fail { sig, msg }
+}
+
+/// the result must be the canonical dense representation of `want`
+fn chk_dense<F: PrimeField>(op: &str, p: &DensePolynomial<F>, want: &[F], pts: &[F]) -> R {
+    let got = &p.coeffs;
+    if got.as_slice() != want {
+        let c = canon(got.clone());
+        if c.as_slice() == want {
+            return Err(err(
+                format!("{}.noncanonical", op),
+                format!("{}: result has {} coefficients with a zero leading coefficient; expected canonical {}", op, got.len(), show_m(want)),
+            ));
+        }
+        return Err(err(format!("{}.value", op), format!("{}: got {} expected {}; {}", op, show_m(&c), show_m(want), first_diff(&c, want))));
+    }
+    let d = no_panic(&format!("{}.degree", op), || p.degree())?;
+    ensure!(d == m_deg(want), format!("{}.degree", op), "{}: degree() = {} expected {}", op, d, m_deg(want));
+    ensure!(p.is_zero() == want.is_empty(), format!("{}.is_zero", op), "{}: is_zero() = {}", op, p.is_zero());
+    for x in pts {
+        let v = no_panic(&format!("{}.evaluate", op), || p.evaluate(x))?;
+        ensure!(v == m_eval(want, x), format!("{}.evaluate", op), "{}: result.evaluate({}) = {} expected {}", op, x, v, m_eval(want, x));
+    }
+    Ok(())
+}
+
+/// the result must be the canonical sparse representation of `want`
+fn chk_sparse<F: PrimeField>(op: &str, p: &SparsePolynomial<F>, want: &[F], pts: &[F]) -> R {
+    let terms: &[(usize, F)] = p;
+    let mut dense = vec![F::zero(); terms.iter().map(|(i, _)| i + 1).max().unwrap_or(0)];
+    for (i, c) in terms {
+        dense[*i] += c;
+    }
+    let dense = canon(dense);
+    if dense.as_slice() != want {
+        return Err(err(format!("{}.value", op), format!("{}: got {} expected {}; {}", op, show_m(&dense), show_m(want), first_diff(&dense, want))));
+    }
+    for w in terms.windows(2) {
+        ensure!(w[0].0 < w[1].0, format!("{}.noncanonical", op), "{}: term degrees not strictly increasing ({} then {})", op, w[0].0, w[1].0);
+    }
+    for (i, c) in terms {
+        ensure!(!c.is_zero(), format!("{}.noncanonical", op), "{}: explicit zero coefficient at degree {}; expected {}", op, i, show_m(want));
+    }
+    ensure!(terms.len() == want.iter().filter(|c| !c.is_zero()).count(), format!("{}.noncanonical", op), "{}: number of terms", op);
+    let d = no_panic(&format!("{}.degree", op), || p.degree())?;
+    ensure!(d == m_deg(want), format!("{}.degree", op), "{}: degree() = {} expected {}", op, d, m_deg(want));
+    ensure!(p.is_zero() == want.is_empty(), format!("{}.is_zero", op), "{}: is_zero() = {}", op, p.is_zero());
+    for x in pts {
+        let v = no_panic(&format!("{}.evaluate", op), || p.evaluate(x))?;
+        ensure!(v == m_eval(want, x), format!("{}.evaluate", op), "{}: result.evaluate({}) = {} expected {}", op, x, v, m_eval(want, x));
+    }
+    Ok(())
+}
+
+fn points<F: PrimeField>(t: &mut Tape<'_>) -> Vec<F> {
+    vec![F::zero(), F::one(), -F::one(), tape_coeff::<F>(t), stream_felt::<F>(t.u64(), 7)]
+}
+
+fn classify<F: Field>(o: &mut Obs, a: &[F], b: &[F], sum_like: &[&[F]]) {
+    let both = !a.is_empty() && !b.is_empty();
+    let eqdeg = both && a.len() == b.len();
+    let cancel = both && sum_like.iter().any(|r| r.len() < a.len().max(b.len()));
+    o.class_if(eqdeg, "equal degrees");
+    o.class_if(cancel, "leading terms cancel");
+    o.class_if(both && sum_like.iter().any(|r| r.is_empty()), "result is zero");
+    o.class_if(a.is_empty() || b.is_empty(), "an operand is zero");
+    o.class_if(both && a.len() > b.len(), "deg a > deg b");
+    o.class_if(both && a.len() < b.len(), "deg a < deg b");
+    o.nt(both && (eqdeg || cancel));
+}
+
+// ---------------------------------------------------------------------------------------------------------
+// relations
+// ---------------------------------------------------------------------------------------------------------
+
+struct Cfg {
+    field: &'static str,
+    maxlen: usize,
+    two_adicity: u32,
+}
+
+/// dense ∘ dense: + - neg *F += -= +=(f,·)
+fn dense_linear<F: PrimeField>(cfg: &Cfg, t: &mut Tape<'_>, o: &mut Obs) -> R {
+    let f = tape_coeff::<F>(t);
+    let (am, bm, pc) = gen_pair::<F>(t, cfg.maxlen, f);
+    let a = to_dense(t, &am);
+    let b = to_dense(t, &bm);
+    let pts = points::<F>(t);
+    o.show(|| format!("{}: a={} b={} f={} [{}]", cfg.field, show_m(&am), show_m(&bm), f, pc));
+    let sum = m_add(&am, &bm);
+    let dif = m_sub(&am, &bm);
+    let sadd = m_add(&am, &m_scale(&bm, f));
+    o.class(pc);
+    classify(o, &am, &bm, &[&sum, &dif, &sadd]);
+    o.class_if(f.is_zero(), "f=0");
+    o.class_if(am.is_empty() && f.is_zero() && !bm.is_empty(), "0 += (0, b)");
+    o.evals(14);
+    ensure_eq!(a.coeffs, am, "from_coefficients.canonical");
+    chk_dense("dd.add", &no_panic("dd.add", || &a + &b)?, &sum, &pts)?;
+    chk_dense("dd.add.owned", &no_panic("dd.add.owned", || a.clone() + b.clone())?, &sum, &[])?;
+    chk_dense("dd.add.owned_ref", &no_panic("dd.add.owned_ref", || a.clone() + &b)?, &sum, &[])?;
+    chk_dense("dd.add.ref_owned", &no_panic("dd.add.ref_owned", || &a + b.clone())?, &sum, &[])?;
+    chk_dense("dd.sub", &no_panic("dd.sub", || &a - &b)?, &dif, &pts)?;
+    chk_dense("dd.sub.owned", &no_panic("dd.sub.owned", || a.clone() - b.clone())?, &dif, &[])?;
+    chk_dense("dd.sub.ref_owned", &no_panic("dd.sub.ref_owned", || &a - b.clone())?, &dif, &[])?;
+    chk_dense("d.neg", &no_panic("d.neg", || -a.clone())?, &m_neg(&am), &pts)?;
+    chk_dense("d.scale", &no_panic("d.scale", || &a * f)?, &m_scale(&am, f), &pts)?;
+    chk_dense("d.scale.owned", &no_panic("d.scale.owned", || b.clone() * f)?, &m_scale(&bm, f), &[])?;
+    let mut x = a.clone();
+    no_panic("dd.add_assign", || x += &b)?;
+    chk_dense("dd.add_assign", &x, &sum, &[])?;
+    let mut x = a.clone();
+    no_panic("dd.sub_assign", || x -= &b)?;
+    chk_dense("dd.sub_assign", &x, &dif, &[])?;
+    let mut x = a.clone();
+    no_panic("dd.add_assign_scaled", || x += (f, &b))?;
+    chk_dense("dd.add_assign_scaled", &x, &sadd, &pts)?;
+    Ok(())
+}
+
+/// dense ∘ sparse: + - += -=
+fn dense_sparse_linear<F: PrimeField>(cfg: &Cfg, t: &mut Tape<'_>, o: &mut Obs) -> R {
+    let am = if t.chance(1, 8) { vec![] } else { gen_model::<F>(t, cfg.maxlen) };
+    let (sm, sc) = gen_sparse_for::<F>(t, &am, cfg.maxlen + 6);
+    let a = to_dense(t, &am);
+    let s = to_sparse(t, &sm);
+    let pts = points::<F>(t);
+    o.show(|| format!("{}: dense a={} sparse s={} (terms as given: {:?}) [{}]", cfg.field, show_m(&am), show_m(&sm), s.iter().map(|(i, _)| *i).collect::<Vec<_>>(), sc));
+    let sum = m_add(&am, &sm);
+    let dif = m_sub(&am, &sm);
+    o.class(sc);
+    classify(o, &am, &sm, &[&sum, &dif]);
+    o.evals(6);
+    chk_sparse("sparse.from_coefficients", &s, &sm, &[])?;
+    chk_dense("ds.add", &no_panic("ds.add", || &a + &s)?, &sum, &pts)?;
+    chk_dense("ds.sub", &no_panic("ds.sub", || &a - &s)?, &dif, &pts)?;
+    let mut x = a.clone();
+    no_panic("ds.add_assign", || x += &s)?;
+    chk_dense("ds.add_assign", &x, &sum, &[])?;
+    let mut x = a.clone();
+    no_panic("ds.sub_assign", || x -= &s)?;
+    chk_dense("ds.sub_assign", &x, &dif, &[])?;
+    Ok(())
+}
+
+/// sparse ∘ sparse: + neg *F += -= +=(f,·)
+fn sparse_linear<F: PrimeField>(cfg: &Cfg, t: &mut Tape<'_>, o: &mut Obs) -> R {
+    let f = tape_coeff::<F>(t);
+    let maxdeg = cfg.maxlen + 6;
+    let (am, bm, pc) = match t.weighted(&[4, 3, 3, 2, 2, 2]) {
+        0 => (gen_sparse_model::<F>(t, maxdeg), gen_sparse_model::<F>(t, maxdeg), "pair=independent"),
+        1 => {
+            let a = gen_sparse_model::<F>(t, maxdeg);
+            let (b, _) = gen_sparse_for::<F>(t, &a, maxdeg);
+            (a, b, "pair=sparse correlated")
+        },
+        2 => {
+            // share the degrees, different coefficients
+            let a = gen_sparse_model::<F>(t, maxdeg);
+            let seed = t.u64();
+            let b: Vec<F> = a.iter().enumerate().map(|(i, c)| if c.is_zero() { *c } else { nonzero(stream_felt::<F>(seed, i as u64)) }).collect();
+            (a, b, "pair=same support")
+        },
+        3 => {
+            let a = gen_sparse_model::<F>(t, maxdeg);
+            match f.inverse() {
+                Some(fi) => {
+                    let mut b = m_scale(&a, -fi);
+                    if b.len() > 1 && t.bool() {
+                        let j = t.idx(b.len() - 1);
+                        b[j] = tape_coeff::<F>(t);
+                    }
+                    (a, canon(b), "pair=b=-a/f+noise")
+                },
+                None => {
+                    let b = gen_sparse_model::<F>(t, maxdeg);
+                    (a, b, "pair=independent")
+                },
+            }
+        },
+        4 => {
+            let a = gen_sparse_model::<F>(t, maxdeg);
+            if t.bool() {
+                (vec![], a, "pair=left zero")
+            } else {
+                (a, vec![], "pair=right zero")
+            }
+        },
+        _ => {
+            // dense-ish operands stored sparsely
+            let (a, b, _) = gen_pair::<F>(t, cfg.maxlen.min(24), f);
+            (a, b, "pair=dense models")
+        },
+    };
+    let a = to_sparse(t, &am);
+    let b = to_sparse(t, &bm);
+    let pts = points::<F>(t);
+    o.show(|| format!("{}: sparse a={} b={} f={} [{}]", cfg.field, show_m(&am), show_m(&bm), f, pc));
+    let sum = m_add(&am, &bm);
+    let dif = m_sub(&am, &bm);
+    let sadd = m_add(&am, &m_scale(&bm, f));
+    o.class(pc);
+    classify(o, &am, &bm, &[&sum, &dif, &sadd]);
+    o.class_if(f.is_zero(), "f=0");
+    o.evals(9);
+    chk_sparse("sparse.from_coefficients", &a, &am, &pts)?;
+    chk_sparse("ss.add", &no_panic("ss.add", || &a + &b)?, &sum, &pts)?;
+    chk_sparse("ss.add.owned", &no_panic("ss.add.owned", || a.clone() + b.clone())?, &sum, &[])?;
+    chk_sparse("s.neg", &no_panic("s.neg", || -a.clone())?, &m_neg(&am), &pts)?;
+    chk_sparse("s.scale", &no_panic("s.scale", || &a * f)?, &m_scale(&am, f), &pts)?;
+    let mut x = a.clone();
+    no_panic("ss.add_assign", || x += &b)?;
+    chk_sparse("ss.add_assign", &x, &sum, &[])?;
+    let mut x = a.clone();
+    no_panic("ss.sub_assign", || x -= &b)?;
+    chk_sparse("ss.sub_assign", &x, &dif, &pts)?;
+    let mut x = a.clone();
+    no_panic("ss.add_assign_scaled", || x += (f, &b))?;
+    chk_sparse("ss.add_assign_scaled", &x, &sadd, &pts)?;
+    Ok(())
+}
+
+/// naive_mul, FFT-based `*`, SparsePolynomial::mul
+fn mul_rel<F: PrimeField>(cfg: &Cfg, t: &mut Tape<'_>, o: &mut Obs) -> R {
+    let (am, bm, pc): (M<F>, M<F>, &'static str) = match t.weighted(&[5, 2, 2, 2, 2]) {
+        0 => (gen_model(t, cfg.maxlen), gen_model(t, cfg.maxlen), "mul=independent"),
+        1 => {
+            // b(x) = a(-x): every odd-degree term of the product cancels
+            let a = gen_model::<F>(t, cfg.maxlen);
+            let b: Vec<F> = a.iter().enumerate().map(|(i, c)| if i % 2 == 1 { -*c } else { *c }).collect();
+            (a, b, "mul=a(x)*a(-x)")
+        },
+        2 => {
+            // (x^k + c)(x^k - c)
+            let k = 1 + t.below(cfg.maxlen as u64 / 2) as usize;
+            let c = nonzero(tape_coeff::<F>(t));
+            let mut a = vec![F::zero(); k + 1];
+            let mut b = a.clone();
+            a[0] = c;
+            a[k] = F::one();
+            b[0] = -c;
+            b[k] = F::one();
+            (a, b, "mul=(x^k+c)(x^k-c)")
+        },
+        3 => (gen_sparse_model(t, cfg.maxlen), gen_sparse_model(t, cfg.maxlen), "mul=few terms"),
+        _ => {
+            let a = gen_model::<F>(t, cfg.maxlen);
+            if t.bool() {
+                (a, vec![], "mul=by zero")
+            } else {
+                (vec![], a, "mul=by zero")
+            }
+        },
+    };
+    let a = to_dense(t, &am);
+    let b = to_dense(t, &bm);
+    let sa = to_sparse(t, &am);
+    let sb = to_sparse(t, &bm);
+    let pts = points::<F>(t);
+    o.show(|| format!("{}: a={} b={} [{}]", cfg.field, show_m(&am), show_m(&bm), pc));
+    let prod = m_mul(&am, &bm);
+    let both = !am.is_empty() && !bm.is_empty();
+    let full_terms = both && prod.iter().all(|c| !c.is_zero());
+    o.class(pc);
+    o.class_if(both && !full_terms, "product has zero coefficients below its degree");
+    o.nt(both && am.len() + bm.len() > 2);
+    o.evals(4);
+    chk_dense("naive_mul", &no_panic("naive_mul", || a.naive_mul(&b))?, &prod, &pts)?;
+    chk_sparse("sparse_mul", &no_panic("sparse_mul", || sa.mul(&sb))?, &prod, &pts)?;
+    // FFT multiplication needs a domain of size >= deg a + deg b + 1 (documented: panics when the field is not smooth enough)
+    let need = if both { am.len() + bm.len() - 1 } else { 0 };
+    let fits = (need as u128) <= (1u128 << cfg.two_adicity.min(60));
+    o.class_if(both && fits, "fft multiplication");
+    if fits {
+        chk_dense("fft_mul", &no_panic("fft_mul", || &a * &b)?, &prod, &pts)?;
+        chk_dense("fft_mul.owned", &no_panic("fft_mul.owned", || a.clone() * b.clone())?, &prod, &[])?;
+        chk_dense("fft_mul.owned_ref", &no_panic("fft_mul.owned_ref", || a.clone() * &b)?, &prod, &[])?;
+    }
+    Ok(())
+}
+
+/// `/` and divide_with_q_and_r in all four dense/sparse mixes (divisor non-zero)
+fn div_rel<F: PrimeField>(cfg: &Cfg, t: &mut Tape<'_>, o: &mut Obs) -> R {
+    let maxlen = cfg.maxlen;
+    let nz_model = |t: &mut Tape<'_>, maxlen: usize| -> M<F> {
+        let m = gen_model::<F>(t, maxlen);
+        if m.is_empty() {
+            vec![nonzero(tape_coeff::<F>(t))]
+        } else {
+            m
+        }
+    };
+    let (am, bm, pc): (M<F>, M<F>, &'static str) = match t.weighted(&[3, 4, 2, 2, 2, 2, 1]) {
+        0 => (gen_model(t, maxlen), nz_model(t, maxlen), "div=independent"),
+        1 => {
+            // a = b*q0 + r0 with deg r0 < deg b
+            let b = nz_model(t, maxlen / 2 + 1);
+            let q0 = gen_model::<F>(t, maxlen / 2 + 1);
+            let r0 = noise::<F>(t, b.len() - 1);
+            let a = m_add(&m_mul(&b, &q0), &r0);
+            (a, b, if r0.is_empty() { "div=exact multiple" } else { "div=b*q+r" })
+        },
+        2 => {
+            let b = vec![nonzero(tape_coeff::<F>(t))];
+            (gen_model(t, maxlen), b, "div=by constant")
+        },
+        3 => {
+            // x^n - c (vanishing-polynomial shape) and monomials
+            let n = 1 + t.below(maxlen as u64 / 2) as usize;
+            let mut b = vec![F::zero(); n + 1];
+            b[n] = nonzero(tape_coeff::<F>(t));
+            b[0] = tape_coeff::<F>(t);
+            (gen_model(t, maxlen), b, "div=by x^n-c")
+        },
+        4 => {
+            let a = gen_model::<F>(t, maxlen);
+            let b = fill::<F>(t, a.len().max(1));
+            (a, b, "div=equal degree")
+        },
+        5 => (gen_model(t, maxlen), gen_sparse_model(t, maxlen / 2).pipe_nz(t), "div=by few terms"),
+        _ => (vec![], nz_model(t, maxlen), "div=zero dividend"),
+    };
+    let a = to_dense(t, &am);
+    let b = to_dense(t, &bm);
+    let sa = to_sparse(t, &am);
+    let sb = to_sparse(t, &bm);
+    let pts = points::<F>(t);
+    o.show(|| format!("{}: a={} b={} [{}]", cfg.field, show_m(&am), show_m(&bm), pc));
+    let (q, r) = m_divrem(&am, &bm);
+    // the oracle's own sanity: a = q b + r, deg r < deg b
+    assert!(m_add(&m_mul(&q, &bm), &r) == am && r.len() < bm.len());
+    o.class(pc);
+    o.class_if(r.is_empty() && !am.is_empty(), "remainder zero");
+    o.class_if(am.len() < bm.len(), "deg a < deg b");
+    o.class_if(am.len() == bm.len(), "equal degrees");
+    o.nt(!am.is_empty() && am.len() >= bm.len());
+    o.evals(10);
+    chk_dense("div", &no_panic("div", || &a / &b)?, &q, &pts)?;
+    chk_dense("div.owned", &no_panic("div.owned", || a.clone() / b.clone())?, &q, &[])?;
+    let da = DenseOrSparsePolynomial::from(&a);
+    let db = DenseOrSparsePolynomial::from(&b);
+    let xa = DenseOrSparsePolynomial::from(&sa);
+    let xb = DenseOrSparsePolynomial::from(&sb);
+    for (name, x, y) in [("dd", &da, &db), ("ds", &da, &xb), ("sd", &xa, &db), ("ss", &xa, &xb)] {
+        let op = format!("divide_with_q_and_r.{}", name);
+        let res = no_panic(&op, || x.divide_with_q_and_r(y))?;
+        let (gq, gr) = match res {
+            Some(v) => v,
+            None => return Err(err(format!("{}.none", op), format!("{} returned None for a non-zero divisor", op))),
+        };
+        chk_dense(&format!("{}.q", op), &gq, &q, &[])?;
+        chk_dense(&format!("{}.r", op), &gr, &r, &pts[3..4])?;
+        // a = q*b + r and deg r < deg b, stated on the returned values
+        let back = m_add(&m_mul(&gq.coeffs, &bm), &gr.coeffs);
+        ensure!(back == am, format!("{}.identity", op), "q*b + r != a");
+        ensure!(gr.is_zero() || gr.degree() < m_deg(&bm), format!("{}.rdeg", op), "deg r = {} >= deg b = {}", gr.degree(), m_deg(&bm));
+    }
+    Ok(())
+}
+
+trait PipeNz<F> {
+    fn pipe_nz(self, t: &mut Tape<'_>) -> Self;
+}
+impl<F: PrimeField> PipeNz<F> for Vec<F> {
+    /// replace the zero polynomial by a non-zero constant
+    fn pipe_nz(self, t: &mut Tape<'_>) -> Self {
+        if self.is_empty() {
+            vec![nonzero(tape_coeff::<F>(t))]
+        } else {
+            self
+        }
+    }
+}
+
+/// conversions, degree, evaluate, constructors
+fn conv_rel<F: PrimeField>(cfg: &Cfg, t: &mut Tape<'_>, o: &mut Obs) -> R {
+    let am = if t.bool() { gen_model::<F>(t, cfg.maxlen) } else { gen_sparse_model::<F>(t, cfg.maxlen + 40) };
+    let pts = points::<F>(t);
+    o.show(|| format!("{}: a={}", cfg.field, show_m(&am)));
+    o.nt(am.len() >= 2);
+    o.class_if(am.is_empty(), "zero");
+    o.class_if(am.len() == 1, "constant");
+    o.class_if(am.iter().filter(|c| c.is_zero()).count() > 0, "has zero coefficients");
+    o.evals(10);
+    let d = to_dense(t, &am);
+    chk_dense("dense.from_coefficients", &d, &am, &pts)?;
+    ensure!(d.coeffs() == am.as_slice(), "dense.coeffs", "coeffs()");
+    let s = to_sparse(t, &am);
+    chk_sparse("sparse.from_coefficients", &s, &am, &pts)?;
+    let s2: SparsePolynomial<F> = no_panic("dense->sparse", || d.clone().into())?;
+    chk_sparse("dense->sparse", &s2, &am, &[])?;
+    ensure!(s2 == s, "sparse.eq", "two canonical sparse representations of the same polynomial differ");
+    let d2: DensePolynomial<F> = no_panic("sparse->dense", || s.clone().into())?;
+    chk_dense("sparse->dense", &d2, &am, &[])?;
+    ensure!(d2 == d, "dense.eq", "two canonical dense representations of the same polynomial differ");
+    // DenseOrSparsePolynomial
+    let x = DenseOrSparsePolynomial::from(&d);
+    let y = DenseOrSparsePolynomial::from(s.clone());
+    ensure_eq!(x.is_zero(), am.is_empty(), "dos.is_zero.dense");
+    ensure_eq!(y.is_zero(), am.is_empty(), "dos.is_zero.sparse");
+    ensure_eq!(no_panic("dos.degree", || x.degree())?, m_deg(&am), "dos.degree.dense");
+    ensure_eq!(no_panic("dos.degree", || y.degree())?, m_deg(&am), "dos.degree.sparse");
+    let d3: DensePolynomial<F> = y.clone().into();
+    chk_dense("dos->dense", &d3, &am, &[])?;
+    let d4: DensePolynomial<F> = x.clone().into();
+    chk_dense("dos->dense", &d4, &am, &[])?;
+    let s3: Result<SparsePolynomial<F>, ()> = y.try_into();
+    match s3 {
+        Ok(s3) => chk_sparse("dos->sparse", &s3, &am, &[])?,
+        Err(()) => return vh_core::fail("dos->sparse", "TryInto<SparsePolynomial> failed on the sparse variant"),
+    }
+    let s4: Result<SparsePolynomial<F>, ()> = x.try_into();
+    ensure!(s4.is_err(), "dos->sparse", "TryInto<SparsePolynomial> on the dense variant is documented by its code to fail");
+    // DenseUVPolynomial::rand(d): "a univariate polynomial of degree d", canonical
+    let deg = m_deg(&am);
+    let mut rng = ark_std::rand::rngs::StdRng::seed_from_u64(t.u64());
+    let r = no_panic("dense.rand", || DensePolynomial::<F>::rand(deg, &mut rng))?;
+    ensure!(r.coeffs.len() == deg + 1 && !r.coeffs[deg].is_zero(), "dense.rand", "rand({}) has {} coefficients / zero leading coefficient", deg, r.coeffs.len());
+    ensure_eq!(no_panic("dense.rand.degree", || r.degree())?, deg, "dense.rand.degree");
+    Ok(())
+}
+
+// ---- relations over an evaluation domain ----------------------------------------------------------------
+
+trait Dom<F: FftField>: EvaluationDomain<F> + Send + Sync + 'static {
+    const NAME: &'static str;
+}
+impl<F: FftField> Dom<F> for Radix2EvaluationDomain<F> {
+    const NAME: &'static str = "radix2";
+}
+impl<F: FftField> Dom<F> for MixedRadixEvaluationDomain<F> {
+    const NAME: &'static str = "mixed";
+}
+impl<F: FftField> Dom<F> for GeneralEvaluationDomain<F> {
+    const NAME: &'static str = "general";
+}
+
+/// a domain of size <= maxsize (requested through any n) and a coset of it; returns (domain, offset, elements)
+fn pick_domain<F: PrimeField, D: Dom<F>>(t: &mut Tape<'_>, o: &mut Obs, maxsize: usize) -> Result<(D, F, Vec<F>, &'static str), Fail> {
+    // n = 0 gives size 1; the size is whatever the constructor returns (its minimality is C07's subject)
+    let n = match t.weighted(&[1, 2, 2, 2, 2, 2, 2]) {
+        0 => t.below(2),
+        1 => 2,
+        2 => 3 + t.below(2),
+        3 => 5 + t.below(4),
+        4 => 9 + t.below(8),
+        5 => 17 + t.below(16),
+        _ => t.below(maxsize as u64 + 1),
+    } as usize;
+    let n = n.min(maxsize);
+    let d0 = match D::new(n) {
+        Some(d) if d.size() <= 4 * maxsize => d,
+        _ => D::new(1).expect("domain of size 1"),
+    };
+    let size = d0.size();
+    let (h, hc) = match t.weighted(&[3, 2, 2, 2]) {
+        0 => (F::one(), "offset=1"),
+        1 => (F::GENERATOR, "offset=GENERATOR"),
+        2 => (nonzero(tape_coeff::<F>(t)), "offset=tape"),
+        _ => (d0.group_gen().pow([t.below(size as u64)]), "offset=in-subgroup"),
+    };
+    let d = d0.get_coset(h).ok_or_else(|| err("get_coset.none".into(), format!("get_coset({}) = None", h)))?;
+    let mut elems = Vec::with_capacity(size);
+    let mut x = h;
+    for _ in 0..size {
+        elems.push(x);
+        x *= d0.group_gen();
+    }
+    o.class(hc);
+    o.class_if(!h.is_one(), "coset domain");
+    let mut hn = F::one();
+    for _ in 0..size {
+        hn *= h;
+    }
+    o.class_if(!hn.is_one(), "coset domain with h^n != 1");
+    Ok((d, h, elems, hc))
+}
+
+/// a dense model whose length is chosen relative to the domain size n
+fn gen_model_vs_domain<F: PrimeField>(t: &mut Tape<'_>, n: usize, maxlen: usize) -> (M<F>, &'static str) {
+    let cap = (4 * n + 3).max(maxlen);
+    let (len, c) = match t.weighted(&[1, 2, 2, 2, 2, 2, 2, 2, 2]) {
+        0 => (0, "len=0"),
+        1 => (t.below(n as u64) as usize, "len<n"),
+        2 => (n, "len=n"),
+        3 => (n + 1, "len=n+1"),
+        4 => (n + 1 + t.below(n as u64) as usize, "n<len<=2n"),
+        5 => (2 * n, "len=2n"),
+        6 => (2 * n + 1 + t.below(2 * n as u64 + 2) as usize, "len>2n"),
+        7 => ((2 + t.below(3) as usize) * n, "len=k*n"),
+        _ => (t.below(cap as u64 + 1) as usize, "len=any"),
+    };
+    (fill(t, len.min(cap.max(4 * n + 3))), c)
+}
+
+/// mul_by_vanishing_poly / divide_by_vanishing_poly on subgroup and coset domains
+fn vanishing_rel<F: PrimeField, D: Dom<F>>(cfg: &Cfg, maxsize: usize, t: &mut Tape<'_>, o: &mut Obs) -> R {
+    let (d, h, elems, hc) = pick_domain::<F, D>(t, o, maxsize)?;
+    let n = d.size();
+    let (am, lc) = gen_model_vs_domain::<F>(t, n, cfg.maxlen);
+    let a = to_dense(t, &am);
+    let pts = points::<F>(t);
+    o.show(|| format!("{}: {} domain of size {} {} (h={}) a={} [{}]", cfg.field, D::NAME, n, hc, h, show_m(&am), lc));
+    // Z = x^n - h^n
+    let mut hn = F::one();
+    for _ in 0..n {
+        hn *= h;
+    }
+    let mut z = vec![F::zero(); n + 1];
+    z[0] = -hn;
+    z[n] += F::one();
+    let z = canon(z);
+    o.class(lc);
+    o.class_if(am.len() > 2 * n, "operand longer than 2n");
+    o.nt(!am.is_empty() && am.len() >= n);
+    o.evals(4 + n as u64);
+    let prod = m_mul(&am, &z);
+    let got = no_panic("mul_by_vanishing_poly", || a.mul_by_vanishing_poly(d))?;
+    chk_dense("mul_by_vanishing_poly", &got, &prod, &pts)?;
+    // the product vanishes on the domain
+    for e in &elems {
+        ensure!(got.evaluate(e).is_zero(), "mul_by_vanishing_poly.vanishes", "a*Z does not vanish at the domain element {}", e);
+    }
+    let (q, r) = m_divrem(&am, &z);
+    let (gq, gr) = no_panic("divide_by_vanishing_poly", || a.divide_by_vanishing_poly(d))?;
+    chk_dense("divide_by_vanishing_poly.q", &gq, &q, &pts[3..4])?;
+    chk_dense("divide_by_vanishing_poly.r", &gr, &r, &pts[3..4])?;
+    // round trip: (a*Z) / Z = (a, 0)
+    let (bq, br) = no_panic("divide_by_vanishing_poly", || got.divide_by_vanishing_poly(d))?;
+    chk_dense("divide_by_vanishing_poly.of-product.q", &bq, &am, &[])?;
+    chk_dense("divide_by_vanishing_poly.of-product.r", &br, &[], &[])?;
+    // the remainder agrees with a on the domain
+    for e in elems.iter().take(8) {
+        ensure!(gr.evaluate(e) == m_eval(&am, e), "divide_by_vanishing_poly.r.on-domain", "r(e) != a(e) at the domain element {}", e);
+    }
+    Ok(())
+}
+
+/// evaluate_over_domain(_by_ref) for dense (also longer than the domain) and sparse; Evaluations ops; interpolate
+fn eval_domain_rel<F: PrimeField, D: Dom<F>>(cfg: &Cfg, maxsize: usize, t: &mut Tape<'_>, o: &mut Obs) -> R {
+    let (d, h, elems, hc) = pick_domain::<F, D>(t, o, maxsize)?;
+    let n = d.size();
+    let (am, lc) = gen_model_vs_domain::<F>(t, n, cfg.maxlen);
+    let (bm, bc): (M<F>, &'static str) = match t.weighted(&[3, 2, 2]) {
+        0 => gen_model_vs_domain::<F>(t, n, cfg.maxlen),
+        1 => (gen_sparse_model(t, 3 * n + 2), "sparse few terms"),
+        _ => (m_add(&m_neg(&am), &noise(t, am.len())), "b=-a+noise"),
+    };
+    let f = tape_coeff::<F>(t);
+    let a = to_dense(t, &am);
+    let sb = to_sparse(t, &bm);
+    let b = to_dense(t, &bm);
+    o.show(|| format!("{}: {} domain of size {} {} (h={}) a={} [{}] b={} [{}] f={}", cfg.field, D::NAME, n, hc, h, show_m(&am), lc, show_m(&bm), bc, f));
+    o.class(lc);
+    o.class_if(am.len() > n, "dense operand longer than the domain");
+    o.class_if(bm.len() > n, "sparse operand of degree >= n");
+    o.nt(!am.is_empty() && !bm.is_empty() && (am.len() > n || bm.len() > n || am.len() == bm.len()));
+    o.evals(3 * n as u64 + 12);
+    let va: Vec<F> = elems.iter().map(|e| m_eval(&am, e)).collect();
+    let vb: Vec<F> = elems.iter().map(|e| m_eval(&bm, e)).collect();
+    let ea = no_panic("evaluate_over_domain_by_ref", || a.evaluate_over_domain_by_ref(d))?;
+    ensure!(ea.evals == va, "evaluate_over_domain_by_ref.dense", "dense {} over a domain of size {} {}: got {:?}… expected {:?}…", lc, n, hc, ea.evals.iter().take(3).map(|x| x.to_string()).collect::<Vec<_>>(), va.iter().take(3).map(|x| x.to_string()).collect::<Vec<_>>());
+    let ea2 = no_panic("evaluate_over_domain", || a.clone().evaluate_over_domain(d))?;
+    ensure!(ea2.evals == va, "evaluate_over_domain.dense", "owned dense {} over a domain of size {} {}", lc, n, hc);
+    ensure!(ea2.domain() == d, "evaluations.domain", "domain()");
+    let eb = no_panic("evaluate_over_domain_by_ref", || sb.evaluate_over_domain_by_ref(d))?;
+    ensure!(eb.evals == vb, "evaluate_over_domain_by_ref.sparse", "sparse over a domain of size {} {}", n, hc);
+    let eb2 = no_panic("evaluate_over_domain", || sb.clone().evaluate_over_domain(d))?;
+    ensure!(eb2.evals == vb, "evaluate_over_domain.sparse", "owned sparse over a domain of size {} {}", n, hc);
+    let eb3 = no_panic("evaluate_over_domain", || DenseOrSparsePolynomial::evaluate_over_domain(&b, d))?;
+    ensure!(eb3.evals == vb, "evaluate_over_domain.dos", "DenseOrSparsePolynomial::evaluate_over_domain(&dense)");
+    for i in 0..n.min(4) {
+        ensure!(ea[i] == va[i], "evaluations.index", "Index");
+    }
+    // interpolation returns the canonical remainder modulo the vanishing polynomial
+    let mut hn = F::one();
+    for _ in 0..n {
+        hn *= h;
+    }
+    let mut z = vec![F::zero(); n + 1];
+    z[0] = -hn;
+    z[n] += F::one();
+    let z = canon(z);
+    let ra = m_divrem(&am, &z).1;
+    chk_dense("interpolate_by_ref", &no_panic("interpolate_by_ref", || ea.interpolate_by_ref())?, &ra, &[])?;
+    chk_dense("interpolate", &no_panic("interpolate", || ea.clone().interpolate())?, &ra, &[])?;
+    let zero_ev = Evaluations::<F, D>::zero(d);
+    ensure!(zero_ev.evals == vec![F::zero(); n], "evaluations.zero", "Evaluations::zero");
+    // pointwise operations
+    let pw = |g: &dyn Fn(F, F) -> F| -> Vec<F> { va.iter().zip(&vb).map(|(x, y)| g(*x, *y)).collect() };
+    ensure!((&ea + &eb).evals == pw(&|x, y| x + y), "evaluations.add", "&a + &b");
+    ensure!((&ea - &eb).evals == pw(&|x, y| x - y), "evaluations.sub", "&a - &b");
+    ensure!((&ea * &eb).evals == pw(&|x, y| x * y), "evaluations.mul", "&a * &b");
+    ensure!((&ea * f).evals == va.iter().map(|x| *x * f).collect::<Vec<_>>(), "evaluations.scale", "&a * f");
+    let mut x = ea.clone();
+    x += &eb;
+    ensure!(x.evals == pw(&|x, y| x + y), "evaluations.add_assign", "a += &b");
+    let mut x = ea.clone();
+    x -= &eb;
+    ensure!(x.evals == pw(&|x, y| x - y), "evaluations.sub_assign", "a -= &b");
+    let mut x = ea.clone();
+    x *= &eb;
+    ensure!(x.evals == pw(&|x, y| x * y), "evaluations.mul_assign", "a *= &b");
+    if vb.iter().all(|y| !y.is_zero()) {
+        o.class("evaluations division");
+        ensure!((&ea / &eb).evals == pw(&|x, y| x * y.inverse().unwrap()), "evaluations.div", "&a / &b");
+        let mut x = ea.clone();
+        x /= &eb;
+        ensure!(x.evals == pw(&|x, y| x * y.inverse().unwrap()), "evaluations.div_assign", "a /= &b");
+    }
+    // the product of the evaluations interpolates to a*b mod Z
+    let rp = m_divrem(&m_mul(&am, &bm), &z).1;
+    chk_dense("evaluations.mul.interpolate", &no_panic("interpolate", || (&ea * &eb).interpolate())?, &rp, &[])?;
+    Ok(())
+}
+
+// ---------------------------------------------------------------------------------------------------------
+// registration
+// ---------------------------------------------------------------------------------------------------------
+
+fn field_rels<F: PrimeField>(out: &mut Vec<Rel>, name: &'static str, tier: Tier, maxlen: usize, tape: usize) {
+    let cfg = std::sync::Arc::new(Cfg { field: name, maxlen, two_adicity: F::TWO_ADICITY });
+    let q = |n: u32| tier.pick(n, n * 20);
+    macro_rules! rel {
+        ($rname:expr, $cases:expr, $f:ident) => {{
+            let c = cfg.clone();
+            out.push(Rel::new(format!("{}/{}", $rname, name), q($cases), tape, move |t, o| $f::<F>(&c, t, o)).shrink_iters(1500));
+        }};
+    }
+    rel!("dense.linear", 4000, dense_linear);
+    rel!("dense-sparse.linear", 4000, dense_sparse_linear);
+    rel!("sparse.linear", 4000, sparse_linear);
+    rel!("mul", 1500, mul_rel);
+    rel!("div", 2000, div_rel);
+    rel!("conv", 1500, conv_rel);
+}
+
+fn domain_rels<F: PrimeField, D: Dom<F>>(out: &mut Vec<Rel>, name: &'static str, tier: Tier, maxlen: usize, maxsize: usize, tape: usize) {
+    let cfg = std::sync::Arc::new(Cfg { field: name, maxlen, two_adicity: F::TWO_ADICITY });
+    let q = |n: u32| tier.pick(n, n * 20);
+    let c = cfg.clone();
+    out.push(Rel::new(format!("vanishing/{}.{}", name, D::NAME), q(2000), tape, move |t, o| vanishing_rel::<F, D>(&c, maxsize, t, o)).shrink_iters(1500));
+    let c = cfg.clone();
+    out.push(Rel::new(format!("eval-domain/{}.{}", name, D::NAME), q(1500), tape, move |t, o| eval_domain_rel::<F, D>(&c, maxsize, t, o)).shrink_iters(1500));
+}
+
+fn relations(tier: Tier) -> Vec<Rel> {
+    use ark_test_curves::bls12_381::Fr;
+    use vh_core::zoo::{T97, X3_2};
+    let mut out = Vec::new();
+    let maxlen = tier.pick(71, 601);
+    let tape = 96;
+    field_rels::<Fr>(&mut out, "bls12_381.Fr", tier, maxlen, tape);
+    field_rels::<T97>(&mut out, "T97", tier, maxlen, tape);
+    let ms = tier.pick(32, 128);
+    domain_rels::<Fr, Radix2EvaluationDomain<Fr>>(&mut out, "bls12_381.Fr", tier, maxlen, ms, tape);
+    domain_rels::<Fr, GeneralEvaluationDomain<Fr>>(&mut out, "bls12_381.Fr", tier, maxlen, ms, tape);
+    // the test-curves configuration of Fr declares the small subgroup 3^1: sizes 3, 6, 12, 24, ...
+    domain_rels::<Fr, MixedRadixEvaluationDomain<Fr>>(&mut out, "bls12_381.Fr", tier, maxlen, ms, tape);
+    // p = 97: two-adicity 5, domains up to size 32 (no small subgroup declared)
+    domain_rels::<T97, Radix2EvaluationDomain<T97>>(&mut out, "T97", tier, maxlen, 32, tape);
+    domain_rels::<T97, GeneralEvaluationDomain<T97>>(&mut out, "T97", tier, maxlen, 32, tape);
+    // a toy mixed-radix field (p = 1657, 2^3 * 3^2): sizes 1..72
+    domain_rels::<X3_2, MixedRadixEvaluationDomain<X3_2>>(&mut out, "X3_2", tier, maxlen, 72, tape);
+    domain_rels::<X3_2, GeneralEvaluationDomain<X3_2>>(&mut out, "X3_2", tier, maxlen, 72, tape);
+    out
+}
+
 fn main() {
-    eprintln!("C08: check not implemented");
-    std::process::exit(2);
+    vh_core::engine::main(PropSpec {
+        id: "C08",
+        rule: "Operands are canonical coefficient vectors (the model) over BLS12-381 Fr and over F_97 (frequent cancellations), 0..=70 coefficients (thorough 600): zero, constants, short, any length; coefficients uniform / edge values with many zeros / very sparse / {0,±1,2}; pairs are independent or correlated (b = -a + low-degree noise, b = a + noise, equal degree with opposite or equal leading coefficient, b = -a/f + noise for the scaled add, b = a, one side zero); sparse operands are built through SparsePolynomial::from_coefficients_vec/slice from distinct degrees with non-zero coefficients in ascending, descending or shuffled order, independent of the dense operand or sharing/negating its leading term, equal to ±a, of higher or lower degree; divisors are non-zero (a = b*q + r constructed, constants, x^n - c, equal degree, few terms); domains are radix-2/general/mixed subgroups and cosets (offset 1, GENERATOR, tape, subgroup element) of size <= 32 (72 on the toy mixed field) with operand lengths < n, = n, n+1, <= 2n, = 2n, > 2n, k*n. Every result is compared coefficient by coefficient with the schoolbook model's canonical vector (so a non-canonical result fails), degree()/is_zero()/evaluate at {0, 1, -1, two tape points} are checked on it, division results also through a = q*b + r and deg r < deg b. Non-trivial: both operands non-zero and (equal degrees or a leading-term cancellation) for the linear relations; both non-zero and not both constant (mul); dividend non-zero of degree >= deg divisor (div); operand non-zero with at least n coefficients (vanishing); both non-zero and longer than the domain or of equal length (eval-domain); at least two coefficients (conv). distinct = distinct decoded choice sequences.",
+        assumptions: &[
+            "prime-field arithmetic is correct (C01); domain construction and fft/ifft are C07's subject (used here only through evaluate_over_domain/interpolate/FFT multiplication, whose results are compared with the model)",
+            "sparse inputs: distinct degrees, non-zero coefficients, any order (the only input shape the constructor documents); dense inputs go through from_coefficients_vec/slice (which strips trailing zeros)",
+            "division by the zero polynomial panics by documentation and is not generated; FFT multiplication is only requested when deg a + deg b + 1 <= 2^TWO_ADICITY (documented panic otherwise); Evaluations division only with non-zero divisor evaluations",
+            "coefficients beyond the first three and the leading one are expanded from one tape word by a fixed mixing function (pure function of the tape)",
+        ],
+        relations,
+    })
 }
